@@ -7,6 +7,7 @@
 set -u
 cd "$(dirname "$0")/.."
 GROUP="${1:-all}"; RE="${2:-.}"
+SFX=""; [ -n "${VERIF_SEED:-}" ] && [ "${VERIF_SEED}" != 1 ] && SFX="-seed$VERIF_SEED"   # results at another seed go to their own files
 TMP="$(mktemp -d /tmp/mut-XXXXXX)"
 trap 'rm -rf "$TMP"' EXIT
 run_one() { # name prop patch expect outfile
@@ -25,14 +26,14 @@ run_one() { # name prop patch expect outfile
 }
 head_of_repo="$(git -C /repo rev-parse --short HEAD)"
 if [ "$GROUP" = own ] || [ "$GROUP" = all ]; then
-  out=mutants/RESULTS-own.tsv; [ "$RE" = . ] && echo "# repo $head_of_repo, quick tier; name property expected verdict first-fingerprints" > $out
+  out=mutants/RESULTS-own$SFX.tsv; [ "$RE" = . ] && echo "# repo $head_of_repo, quick tier; name property expected verdict first-fingerprints" > $out
   grep -v '^#' mutants/INDEX.tsv | while IFS=$'\t' read -r name prop expect what; do
     echo "$name" | grep -qE "$RE" || continue
     run_one "$name" "$prop" "$PWD/mutants/$name.diff" "$expect" "$out"
   done
 fi
 if [ "$GROUP" = reverts ] || [ "$GROUP" = all ]; then
-  out=mutants/RESULTS-reverts.tsv; [ "$RE" = . ] && echo "# repo $head_of_repo, quick tier; each fix commit reverted on a scratch copy; name property expected verdict first-fingerprints" > $out
+  out=mutants/RESULTS-reverts$SFX.tsv; [ "$RE" = . ] && echo "# repo $head_of_repo, quick tier; each fix commit reverted on a scratch copy; name property expected verdict first-fingerprints" > $out
   grep '^fixed:' KNOWN_FINDINGS.txt | sed -E 's/^fixed: property=(C[0-9]+) ([0-9a-f]+) .*/\1 \2/' | while read -r prop commit; do
     echo "revert-$commit-$prop" | grep -qE "$RE" || continue
     if [ -f "mutants/reverts/revert-$commit.diff" ]; then
@@ -44,7 +45,7 @@ if [ "$GROUP" = reverts ] || [ "$GROUP" = all ]; then
   done
 fi
 if [ "$GROUP" = seeded ] || [ "$GROUP" = all ]; then
-  out=mutants/RESULTS-seeded.tsv; [ "$RE" = . ] && echo "# repo $head_of_repo, quick tier; name property expected verdict first-fingerprints" > $out
+  out=mutants/RESULTS-seeded$SFX.tsv; [ "$RE" = . ] && echo "# repo $head_of_repo, quick tier; name property expected verdict first-fingerprints" > $out
   for d in seeded/*/; do
     name="$(basename "$d")"; echo "$name" | grep -qE "$RE" || continue
     prop="$(python3 -c "import json;print(json.load(open('$d/meta.json'))['property'])")"
